@@ -493,3 +493,5 @@ M("C16", "dtlz4-mapped-twice", "benchmark_pareto.py", "        x = x.vector\n   
 M("C16", "twin-dtlz2-angle-form", "benchmark_pareto.py", "                fi *= sin(x[m - i - 1] * pi / 2.)\n            gm = 0.\n", "                fi *= sin(0.5 * pi * x[m - i - 1])\n            gm = 0.\n", "H")
 M("C16", "twin-zdt1-order", "benchmark_pareto.py", "        return constant * g + 1.0", "        return 1.0 + g * constant", "H")
 M("C16", "twin-dtlz4-mapped", "benchmark_pareto.py", "        x = x.vector\n        scores = []\n        for i in range(0, m):\n            fi = 1.0\n            for j in range(0, m - i - 1):\n                fi *= cos(0.5 * x[j] ** alpha * pi)\n\n            if i > 0:\n                fi *= sin(x[m - i - 1] ** alpha * pi / 2.)", "        x = x.vector\n        xa = [xi ** alpha for xi in x[:m - 1]]\n        scores = []\n        for i in range(0, m):\n            fi = 1.0\n            for j in range(0, m - i - 1):\n                fi *= cos(0.5 * xa[j] * pi)\n\n            if i > 0:\n                fi *= sin(xa[m - i - 1] * pi / 2.)", "H")
+M("C17", "find-opt-criteria-before-index", "results.py", "        index = 0  # default - one parameter\n        min_l = []\n        if name:\n            index = self.goal_index(name)\n\n        criteria = None\n        if 'criteria' in self.problem.costs[index]:\n            criteria = self.problem.costs[index]['criteria']\n", "        index = 0  # default - one parameter\n        min_l = []\n        criteria = None\n        if 'criteria' in self.problem.costs[index]:\n            criteria = self.problem.costs[index]['criteria']\n        if name:\n            index = self.goal_index(name)\n")
+M("C17", "twin-find-opt-select", "results.py", "        if criteria == 'minimize' or criteria is None:\n            if len(self.problem.individuals) > 0:\n                min_l = [min(self.problem.individuals, key=lambda x: x.costs[index])]\n        else:\n            if len(self.problem.individuals) > 0:\n                min_l = [max(self.problem.individuals, key=lambda x: x.costs[index])]\n\n        # for population in self.problem.populations:\n        opt = min(min_l, key=lambda x: x.costs[index])\n        return opt\n", "        select = min if (criteria == 'minimize' or criteria is None) else max\n        return select(self.problem.individuals, key=lambda x: x.costs[index])\n", "H")
